@@ -4,7 +4,7 @@ package streamsim
 // into sender / receiver operation lists.
 
 type Msg struct {
-	Kind   string `json:"kind"` // buffered (StartMessage; WriteMessage*; EndMessage) | direct (SendPartialMessage*; SendMessage) | secret
+	Kind   string `json:"kind"` // buffered (StartMessage; WriteMessage*; EndMessage) | direct (SendPartialMessage*; SendMessage) | secret | file (PutFile)
 	Chunks []Data `json:"chunks"`
 }
 
@@ -30,6 +30,8 @@ func (m Msg) SOps() []SOp {
 		ops = append(ops, SOp{Op: "end"})
 	case "secret":
 		ops = append(ops, SOp{Op: "secret", D: m.Chunks[0]})
+	case "file": // PutFile of a file holding the one chunk
+		ops = append(ops, SOp{Op: "putfile", D: m.Chunks[0]})
 	default:
 		for i, c := range m.Chunks {
 			if i == len(m.Chunks)-1 {
@@ -58,6 +60,8 @@ func ROpsFor(api string, n, readChunk int) []ROp {
 		return []ROp{{Op: "frame"}}
 	case "secret":
 		return []ROp{{Op: "secret"}}
+	case "getfile":
+		return []ROp{{Op: "getfile"}}
 	}
 	ops := []ROp{{Op: "start"}}
 	if readChunk <= 0 {
